@@ -166,6 +166,26 @@ func (g *Gen) enumSeparators() {
 }
 
 func genC17(g *Gen) {
+	g.arrangedFrames("enum arranged", func(f int) {
+		for _, col := range []string{"E", "X"} {
+			for _, cmp := range []string{"<", "<=", ">", ">=", "=", "!="} {
+				c := g.oneOf([]string{"lo", "mid", "hi"})
+				if col == "X" {
+					c = g.oneOf([]string{"x0", "x1", "x2", "x3"})
+				}
+				cl := Clause{K: "leaf", Col: toBS(col), CmpK: "str", Cmp: cmp, Arg: &Val{T: "string", S: toBS(c)}, Inv: g.rng.Intn(6) == 0}
+				g.do(Step{Op: "Filter", Recv: f, Clause: &cl})
+			}
+			cl := Clause{K: "leaf", Col: toBS(col), CmpK: "str", Cmp: "in", Arg: &Val{T: "strs", L: []Val{{T: "string", S: toBS("mid")}, {T: "string", S: toBS("x1")}}}}
+			g.do(Step{Op: "Filter", Recv: f, Clause: &cl})
+			cl2 := Clause{K: "leaf", Col: toBS(col), CmpK: "str", Cmp: g.oneOf([]string{"isnull", "isnotnull"})}
+			g.do(Step{Op: "Filter", Recv: f, Clause: &cl2})
+			g.do(Step{Op: "Sort", Recv: f, Orders: []Order{{Col: toBS(col), Rev: g.rng.Intn(2) == 0, NullLast: g.rng.Intn(2) == 0}, {Col: toBS("I")}}})
+			g.do(Step{Op: "Distinct", Recv: f, Cols: bsList([]string{col}), Null: true})
+		}
+		clc := Clause{K: "leaf", Col: toBS("E"), CmpK: "str", Cmp: g.oneOf([]string{"<", "=", ">="}), Arg: &Val{T: "col", S: toBS("E")}}
+		g.do(Step{Op: "Filter", Recv: f, Clause: &clc})
+	})
 	g.enumPaths()
 	g.enumSeparators()
 	g.enumConfReuse()
